@@ -302,9 +302,13 @@ func (c *Ctx) checkModifyCallbacksNilSafe(r *Report, rule string) {
 			case *ssa.Function:
 				cb = f
 			}
-			if cb == nil || len(cb.Params) == 0 || cb.Pkg == nil || shortPkg(cb.Pkg.Pkg) == "ast" {
+			if cb == nil || len(cb.Params) == 0 || (cb.Pkg != nil && shortPkg(cb.Pkg.Pkg) == "ast") {
 				continue // Modify's own recursion passes its parameter f on
 			}
+			if cb.Pkg == nil && cb.Synthetic == "" {
+				continue
+			}
+			// (a method value s.method is a synthetic wrapper that hands its parameter to the method: followed below)
 			ncb++
 			check(cb, cb.Params[len(cb.Params)-1], 0, "")
 		}
